@@ -365,6 +365,10 @@ def conformance_violations(cls, w):
                     bad.append((key, "ff-entries"))
                 else:
                     bad.append((key, kind))
+        if cls in ("Unsubscribed", "Unregistered"):
+            sub = "subscription" if cls == "Unsubscribed" else "registration"
+            if type(d.get(sub)) is int and type(w[1]) is int and not (w[1] == 0 and d[sub] != 0):
+                bad.append((sub, "combination"))      # constructor: request == 0 and subscription != 0
         if payload_mode and d.get("enc_algo") is None and (d.get("enc_key") is not None or d.get("enc_serializer") is not None):
             bad.append(("enc_algo", "missing"))       # enc_key / enc_serializer without enc_algo
     return bad
